@@ -188,6 +188,27 @@ def check_correlation(ctx, case):
         return
     first = judge(ctx, case, kind, obj, has, rr, lambda T: not has_cp, rng,
                   knots=case['Ts'])
+    if first and int(case['T_ref'] * 1000) % 3 == 0:
+        # copy.copy / deepcopy / pickle clones of the object are objects like
+        # any other: each is held to the property itself
+        from vmon.core import clones
+        made, failed = clones.make(obj)
+        for label, why in failed:
+            ctx.skip('%s of a correlation not possible (%s)' % (label, why))
+        for label, c_ in made:
+            rep_c = observe(c_.get_range)
+            if 'exc' in rep_c or rep_c['ok'] is None or \
+                    tuple(rep_c['ok']) != rr:
+                ctx.violation('a %s of the object reports another range'
+                              % label, case,
+                              {'reported': repr(rep_c.get('ok')),
+                               'supplied': rr})
+                return
+            if not judge(ctx, dict(case, clone=label), '%s (%s)' % (
+                    kind, label), c_, has, rr, lambda T: not has_cp, rng,
+                    knots=case['Ts']):
+                return
+            ctx.count('clones_held_to_the_property')
     if first and kind != 'raw' and not case.get('invalid_by_construction'):
         # a COPY of the object is given a wider range (set_range, and a merge
         # with a wider-ranged twin): the original still answers for its own
